@@ -171,16 +171,17 @@ Section WithDigest.
     pose proof (cfg_fields _ _ (add_cfg w v items)) as (CC & _ & _ & _ & CF). now rewrite CC, CF.
   Qed.
   (* ---- a verifying transfer (copy or hard link) retains no mismatching object among the new ids *)
-  Theorem verify_xfer w items o b t :
+  Theorem verify_xfer w v items o b t :
     let r := oids_exist H w (map it_oid items) in
     let new := xfer_new (fst r) items in
+    eff_verify (snd r) v = true ->
     NoDup (map it_oid new) -> In (o, b, t) new ->
     honest (snd r) o -> trusted_ok (snd r) o -> fresh (snd r) o t ->
     (w_cls (snd r) = Local -> S_IMODE (w_fmode (snd r)) <> PROTECTED) ->
-    forall ob', lookup o (w_objs (snd (xfer H w true items))) = Some ob' -> named_ok (w_alg (snd r)) o ob'.
+    forall ob', lookup o (w_objs (snd (xfer H w v items))) = Some ob' -> named_ok (w_alg (snd r)) o ob'.
   Proof.
-    intros r new ND I Hon Tr Fr FM ob' L. unfold xfer in L. fold r in L. fold new in L.
+    intros r new V ND I Hon Tr Fr FM ob' L. unfold xfer in L. fold r in L. fold new in L.
     destruct new as [|i0 new0] eqn:E; [contradiction|]. simpl in L.
-    apply (verify_add H (snd r) (Some true) (i0 :: new0) o b t); auto.
+    apply (verify_add H (snd r) v (i0 :: new0) o b t); auto.
   Qed.
 End WithDigest.
